@@ -940,6 +940,16 @@ func (r *rig) start(op rigOp) error {
 // bookkeeping while the bubble is permanently stuck: every blocked call has returned and every connection has
 // been closed by both sessions. Before any teardown was triggered there is nothing to judge.
 func (r *rig) wedgeOracle(vk.Wedge) error {
+	// Stream.Close is only ever issued by the rig when no other call is in flight on that stream end, so nothing it
+	// could legitimately wait for is outstanding: a Close that is stuck in a permanently blocked system never returns,
+	// the closing notice is never sent and the peer never sees end-of-stream (C03), whatever the session's state
+	for side := 0; side < 2; side++ {
+		for _, s := range r.streams[side] {
+			if s.closeBusy && !s.clFin.Load() {
+				return vk.ViolateSig("close-never-returns", "stream %d side %d: Stream.Close never returns (%d bytes had arrived for this side and %d of them had been read): the closing notice is not sent, the peer never gets end-of-stream", s.id, s.side, func() int64 { h, _ := r.recvState(s.id, dirOf(1-s.side)); return h }(), s.got)
+			}
+		}
+	}
 	if !r.faulted {
 		return nil
 	}
